@@ -5,6 +5,8 @@ node has k (kind), id, ty, sp=[lo,hi,line,col] and optionally mac (macro chain
 where the node's expansion context differs from its parent's).
 """
 
+import re
+
 CHILD_KEYS = ("f", "recv", "e", "l", "r", "cond", "then", "else", "scrut", "body",
               "init", "iter", "idx", "base", "expr", "els", "guard")
 LIST_KEYS = ("args", "elems", "stmts")
@@ -61,16 +63,64 @@ def short(path):
     return "::".join(segs[-2:]) if len(segs) > 1 else p
 
 
+_SG_CACHE = {}
+
+
 def strip_generics(p):
-    out, depth = [], 0
-    for ch in p:
+    """Remove generic argument lists from a def path, keeping `<T as Trait>` / `<impl Trait for T>` heads
+    (with their own generic arguments stripped)."""
+    if p is None:
+        return None
+    r = _SG_CACHE.get(p)
+    if r is not None:
+        return r
+    out = []
+    i, n = 0, len(p)
+    while i < n:
+        ch = p[i]
         if ch == "<":
-            depth += 1
-        elif ch == ">":
-            depth -= 1
-        elif depth == 0:
-            out.append(ch)
-    return "".join(out).replace("::::", "::")
+            # find matching '>'
+            depth, j = 0, i
+            while j < n:
+                if p[j] == "<":
+                    depth += 1
+                elif p[j] == ">" and (j == 0 or p[j - 1] != "-"):
+                    depth -= 1
+                    if depth == 0:
+                        break
+                j += 1
+            inner = p[i + 1:j]
+            at_seg_start = (i == 0) or p[i - 2:i] == "::" and (inner.startswith("impl ") or " as " in inner) and \
+                (len(out) == 0 or "".join(out).endswith("::"))
+            if i == 0 or (inner.startswith("impl ") and "".join(out).endswith("::")):
+                out.append("<" + strip_generics(inner) + ">")
+            i = j + 1
+            continue
+        out.append(ch)
+        i += 1
+    r = "".join(out)
+    while "::::" in r:
+        r = r.replace("::::", "::")
+    if r.endswith("::"):
+        r = r[:-2]
+    _SG_CACHE[p] = r
+    return r
+
+
+_CP_RE = re.compile(r"<impl [^<>]*>::")
+
+
+def canon_path(p):
+    """Path as printed in canonical expressions: generics stripped, `<impl ..>` segments dropped,
+    `<T as Trait>::m` rendered as `Trait::m`."""
+    r = strip_generics(p)
+    if r is None:
+        return None
+    r = _CP_RE.sub("", r)
+    if r.startswith("<") and " as " in r and ">::" in r:
+        head, rest = r[1:].split(">::", 1)
+        r = head.split(" as ", 1)[1] + "::" + rest
+    return r
 
 
 def lit_val(n):
